@@ -142,9 +142,9 @@ class Srv(RefServer):
 # ---------------------------------------------------------------------------
 # one execution
 
-def _snap(W, conn, srv, exits, errs):
+def _snap(W, conn, srv, exits, errs, ci=0):
     S = W.S
-    c = W.net.conns[0]
+    c = W.net.conns[ci]
     try:
         qlen = len(conn._outgoing_packet_queue)
     except Exception:
@@ -180,17 +180,21 @@ def body(W, sc):
     if mode in ('burst', 'held'):
         script = events + ([DISC] if term else [])
 
+    first = sc.get('first')     # family (e): an earlier session's version
+
     def factory(conn):
         # family (d) uses the plain RefServer: its disconnect really closes
         cls = RefServer if mode == 'fault' else Srv
-        srv = cls(conn, protoids.ids, W.rank, login=login, play_script=script)
+        pre = first is not None and not W.servers
+        srv = cls(conn, protoids.ids, W.rank, login=[('success',)] if pre
+                  else login, play_script=[] if pre else script)
         W.servers.append(srv)
         return srv
     W.net.listen('srv', 25565, factory)
     log, exits, errs = [], [], []
     generic = W.C.packets.Packet
     conn = W.connection(
-        allowed_versions={v},
+        allowed_versions={v if first is None else first},
         handle_exception=lambda e, i: errs.append(
             '%s: %s' % (type(e).__name__, str(e)[:120])),
         handle_exit=lambda: exits.append(1))
@@ -205,12 +209,33 @@ def body(W, sc):
     conn.register_packet_listener(listener, generic)
     driver_exc = None
     mid = None
+    si = 0
     try:
+        if first is not None:
+            # the same Connection object first plays a session at another
+            # protocol version, which the server ends; then the user points
+            # the object at version v (public attribute) and connects again
+            conn.connect()
+            W.settle()
+            if not W.servers:
+                return {'driver_exc': 'no connection reached the server'}
+            W.servers[0].play(('keepalive', 1))
+            W.settle()
+            W.servers[0].play(DISC)
+            W.settle()
+            pre_ok = (len(exits), list(errs), [list(r) for r in
+                                               W.servers[0].play_rx])
+            if exits != [1] or errs or len(W.servers[0].play_rx) != 1:
+                return {'driver_exc': 'earlier session at protocol %d did '
+                        'not end cleanly: %r' % (first, pre_ok)}
+            del log[:], exits[:], errs[:]
+            conn.allowed_proto_versions = {v}
+            si = 1
         conn.connect()
         W.settle()
-        if not W.servers:
+        if len(W.servers) <= si:
             return {'driver_exc': 'no connection reached the server'}
-        srv = W.servers[0]
+        srv = W.servers[si]
         if mode == 'step':
             for ev in events:
                 srv.play(ev)
@@ -235,18 +260,18 @@ def body(W, sc):
             srv.play(DISC)
             W.settle()
         if mode in ('step', 'late') and term:
-            mid = _snap(W, conn, srv, exits, errs)
+            mid = _snap(W, conn, srv, exits, errs, si)
             srv.play(DISC)
             W.settle()
     except ToolError:
         raise
     except Exception as e:          # escaped into the user's thread
         driver_exc = '%s: %s' % (type(e).__name__, str(e)[:200])
-        if not W.servers:
+        if len(W.servers) <= si:
             return {'driver_exc': driver_exc}
-        srv = W.servers[0]
+        srv = W.servers[si]
     return {'driver_exc': driver_exc, 'log': log, 'mid': mid,
-            'end': _snap(W, conn, srv, exits, errs)}
+            'end': _snap(W, conn, srv, exits, errs, si)}
 
 
 def execute(sc):
@@ -481,6 +506,9 @@ def _hist_text(sc):
         parts.insert(0, '%d user chats' % sc['prequeue'])
     if sc['term']:
         parts.append('disconnect')
+    if sc.get('first') is not None:
+        parts.insert(0, '[second play session of a Connection object whose '
+                     'first one ran at protocol %d]' % sc['first'])
     return ' '.join(parts) or '(empty)'
 
 
@@ -675,6 +703,26 @@ def w_family_a(ctx, task):
             ctx.cls('pre-release protocol number')
 
 
+E_PAIRS = [(47, 340), (340, 47), (340, 757), (757, 340), (47, 757),
+           (757, 47), (107, 47), (578, 735), (340, 340)]
+
+
+def w_family_e(ctx, task):
+    """(e) the histories of family (a) as the SECOND play session of a
+    Connection object whose first session ran at another protocol version"""
+    (first, v), seed = task
+    rank = harness.setup()['rank']
+    _check_alphabet(v)
+    for comp in (None, 256):
+        for events, term in family_a(_is_long(rank, v), seed):
+            for mode in ('burst', 'step'):
+                sc = {'v': v, 'comp': comp, 'mode': mode, 'events': events,
+                      'term': term, 'first': first}
+                run_scenario(ctx, sc, 'e')
+    ctx.cls('e: second session at %s protocol version' % (
+        'the same' if first == v else 'another'))
+
+
 def _histories(alpha, prefix, maxlen):
     """All histories extending prefix (inclusive) up to maxlen."""
     yield list(prefix)
@@ -849,6 +897,10 @@ def run(ctx):
     tasks = [(v, comp, env) for v in D_VERSIONS if v in sup
              for comp in (None, 256) for env in D_ENVS]
     ctx.pmap(w_family_d, _permute(tasks, seed))
+    # (e) a Connection object that already played a session at another version
+    tasks = [((a, b), seed) for a, b in E_PAIRS if a in sup and b in sup]
+    ctx.pmap(w_family_e, _permute(tasks, seed))
+    ctx.extra['second_sessions'] = [list(t[0]) for t in tasks]
     ctx.sample({'family': 'a', 'history': 'position-and-look then '
                 'keep-alive(3)', 'versions': len(sup), 'compression': 'off/0/256'})
     ctx.sample({'family': 'b', 'versions': bvs, 'max_length': maxlen,
@@ -873,6 +925,7 @@ def run(ctx):
             'replies written by the loop before the disconnect',
             'pre-release protocol number',
             'c2: user queue reaches the 300-write batch limit',
+            'family e', 'e: second session at another protocol version',
             'c: 300 or more keep-alives (burst)']
     if not ctx.violations:
         for n in need:
